@@ -132,7 +132,23 @@ func runC16(c *vkit.Ctx, r *rand.Rand, i int) {
 		if yaml {
 			ps = p.YAMLPath()
 		}
-		specs = append(specs, maskSpec{kind, ps, pick2[any](r, "<masked>", "<masked>", "<mäsked>", "m \"q\"", 0, nil, "x")})
+		var ph any = pick2[any](r, "<masked>", "<masked>", "<mäsked>", "m \"q\"", 0, nil, "x")
+		if r.IntN(5) == 0 {
+			// a string placeholder that reads like one of the masked values (`"5"` over 5,
+			// `"true"` over true, `""` over null, the very string over a string)
+			src := target
+			if r.IntN(2) == 0 {
+				src = nv
+			}
+			switch src.Kind {
+			case "num", "bool", "str":
+				ph = src.S
+			case "null":
+				ph = ""
+			}
+			c.Count("placeholder_equal_to_text_of_a_masked_value", 1)
+		}
+		specs = append(specs, maskSpec{kind, ps, ph})
 	}
 	if len(masked) == 0 {
 		return
